@@ -75,6 +75,9 @@ type Registry struct {
 	opaque     map[string]string // qualified named type -> opaque sort (from spec)
 	ghostVars  map[string]string // ghost variable name -> heap component
 	imm        map[string]bool   // immutable field components (functions of the reference)
+	named      map[string]*namedDef // preds already given a function symbol
+	namedAxiom map[string]string    // defining axiom text -> function symbol
+	namedDeps  map[string]map[string]bool // function symbol -> pred symbols its body applies
 	axiomPkg   map[string]string // spec axiom text -> package path it was stated in
 }
 
@@ -487,6 +490,9 @@ func (r *Registry) PreambleFor(body string, pkgOK ...func(string) bool) string {
 	for _, a := range r.axioms {
 		if p, ok := r.axiomPkg[a]; ok && len(pkgOK) > 0 && !pkgOK[0](p) {
 			continue // axiom of a package the obligation's package does not depend on
+		}
+		if fn, ok := r.namedAxiom[a]; ok && len(pkgOK) > 1 && pkgOK[1] != nil && pkgOK[1](fn) {
+			continue // definition of a pred kept opaque for this attempt
 		}
 		m := map[string]bool{}
 		symbolsOf(a, m)
